@@ -29,133 +29,6 @@ func (c *Ctx) nonNilHere(v ssa.Value, b *ssa.BasicBlock) bool {
 	return dominatedByNonNilTest(v, b)
 }
 
-// A-COMPILE: Compile returns exactly one of (expression, nil) / (nil, error).
-func ruleCompile(c *Ctx) *RuleResult {
-	r := &RuleResult{Doc: "Compile: every return is (non-nil *JMESPath, nil) or (nil, error that is non-nil on that path); the stored AST is the parse of the parameter and the interpreter is fresh", Floor: 2}
-	fn := c.A.Compile
-	n := 0
-	for _, b := range fn.Blocks {
-		ret := blockReturn(b)
-		if ret == nil {
-			continue
-		}
-		n++
-		r.Instances++
-		key := fmt.Sprintf("return#%d", n)
-		pos := c.pos(ret.Pos())
-		v, e := retResults(ret)[0], retResults(ret)[1]
-		switch {
-		case isNilConst(e):
-			if al, ok := v.(*ssa.Alloc); ok {
-				// fields: ast from Parse(param), intr from newInterpreter()
-				astOK, intrOK := false, false
-				for _, rf := range *al.Referrers() {
-					fa, ok := rf.(*ssa.FieldAddr)
-					if !ok {
-						continue
-					}
-					for _, rr := range *fa.Referrers() {
-						st, ok := rr.(*ssa.Store)
-						if !ok {
-							continue
-						}
-						s := c.symStr(st.Val, 0)
-						switch fieldName(fa.X.Type(), fa.Field) {
-						case "ast":
-							astOK = s == "(*Parser).Parse(NewParser(),param#0)#0"
-						case "intr":
-							intrOK = s == "newInterpreter()"
-						}
-					}
-				}
-				if astOK && intrOK {
-					r.ok(key, pos, fname(fn), "success: a freshly allocated JMESPath{ast: Parse(NewParser(), expression), intr: newInterpreter()}, nil error")
-				} else {
-					r.viol(key, pos, fname(fn), fmt.Sprintf("success return does not carry the parse of the parameter with a fresh interpreter (ast ok=%v, interpreter ok=%v)", astOK, intrOK))
-				}
-			} else {
-				r.viol(key, pos, fname(fn), "returns a nil error with an expression that is not a fresh allocation (may be nil or shared): "+c.symStr(v, 0))
-			}
-		case isNilConst(v):
-			if c.nonNilHere(e, b) {
-				r.ok(key, pos, fname(fn), "failure: nil expression with an error that is non-nil on this path")
-			} else {
-				r.viol(key, pos, fname(fn), "returns a nil expression with an error that may be nil: neither value nor error")
-			}
-		default:
-			r.viol(key, pos, fname(fn), "returns both an expression and a possibly non-nil error")
-		}
-	}
-	return r
-}
-
-// A-MUST: MustCompile panics exactly when Compile fails.
-func ruleMustCompile(c *Ctx) *RuleResult {
-	r := &RuleResult{Doc: "MustCompile: calls Compile on its parameter; its only panic is on the err != nil edge and its message depends on the expression; otherwise returns Compile's result", Floor: 3}
-	fn := c.A.MustCompile
-	calls := callsTo(fn, c.A.Compile)
-	r.Instances++
-	if len(calls) != 1 || c.symStr(calls[0].Call.Args[0], 0) != "param#0" {
-		r.viol("calls-compile", c.pos(fn.Pos()), fname(fn), "does not call Compile exactly once with its own parameter")
-		return r
-	}
-	r.ok("calls-compile", c.pos(calls[0].Pos()), fname(fn), "Compile(expression)")
-	var errV ssa.Value
-	for _, rf := range *calls[0].Referrers() {
-		if ex, ok := rf.(*ssa.Extract); ok && ex.Index == 1 {
-			errV = ex
-		}
-	}
-	npanic := 0
-	for _, b := range fn.Blocks {
-		for _, in := range b.Instrs {
-			switch in := in.(type) {
-			case *ssa.Panic:
-				npanic++
-				r.Instances++
-				msg := c.symStr(in.X, 0)
-				okDom := errV != nil && dominatedByNonNilTest(errV, b)
-				okMsg := strings.Contains(msg, "param#0")
-				if okDom && okMsg {
-					r.ok("panic", c.pos(in.Pos()), fname(fn), "panic only where Compile's error is non-nil; message "+msg)
-				} else {
-					r.viol("panic", c.pos(in.Pos()), fname(fn), fmt.Sprintf("panic dominated by err != nil: %v; message names the expression: %v (%s)", okDom, okMsg, msg))
-				}
-			case *ssa.Return:
-				r.Instances++
-				s := c.symStr(retResults(in)[0], 0)
-				if s == "Compile(param#0)#0" {
-					// and this return must not be reachable when err != nil:
-					// every path from the non-nil edge must end in the panic
-					bad := false
-					if errV != nil {
-						for _, t := range nilTests(errFlow(errV)) {
-							for bb := range reachableFrom(t.blk.Succs[t.nonNil], nil) {
-								if bb == b {
-									bad = true
-								}
-							}
-						}
-					} else {
-						bad = true
-					}
-					if bad {
-						r.viol("return", c.pos(in.Pos()), fname(fn), "the normal return is reachable although Compile failed (no panic on that path)")
-					} else {
-						r.ok("return", c.pos(in.Pos()), fname(fn), "returns Compile's expression; not reachable from the err != nil edge")
-					}
-				} else {
-					r.viol("return", c.pos(in.Pos()), fname(fn), "returns "+s+" instead of Compile's result")
-				}
-			}
-		}
-	}
-	if npanic != 1 {
-		r.viol("panic-count", c.pos(fn.Pos()), fname(fn), fmt.Sprintf("%d panic sites, expected exactly one", npanic))
-	}
-	return r
-}
-
 // A-SYNERR: SyntaxError values carry the input expression and a cursor/token offset.
 func ruleSyntaxErrors(c *Ctx) *RuleResult {
 	r := &RuleResult{Doc: "every SyntaxError literal sets Expression from the lexer's/parser's expression field (stored from the parameter before any error can be built) and Offset from len(expression), currentPos-1 or a token position; HighlightLocation = Expression + newline + Offset spaces + caret", Floor: 6}
@@ -357,37 +230,7 @@ func orNone(s string) string {
 // A-SKEL: one-shot Search and Compile+Search evaluate the same thing.
 func ruleSkeleton(c *Ctx) *RuleResult {
 	r := &RuleResult{Doc: "Search(expr, d) = Execute(newInterpreter(), Parse(NewParser(), expr), d) with Parse's error returned first; (*JMESPath).Search(d) = Execute(jp.intr, jp.ast, d); Compile stores exactly those (A-COMPILE)", Floor: 2}
-	check := func(fn *ssa.Function, want []string, key string) {
-		r.Instances++
-		calls := callsTo(fn, c.A.Exec)
-		if len(calls) != 1 {
-			r.viol(key, c.pos(fn.Pos()), fname(fn), fmt.Sprintf("%d evaluator calls, expected one", len(calls)))
-			return
-		}
-		var got []string
-		for _, a := range calls[0].Call.Args {
-			got = append(got, c.symStr(a, 0))
-		}
-		// the result of the evaluator is returned unchanged
-		retOK := true
-		for _, b := range fn.Blocks {
-			if ret := blockReturn(b); ret != nil {
-				if isNilConst(retResults(ret)[0]) && !isNilConst(retResults(ret)[1]) {
-					continue // the parse-error return
-				}
-				if c.symStr(retResults(ret)[0], 0) != "(*treeInterpreter).Execute("+strings.Join(got, ",")+")#0" {
-					retOK = false
-				}
-			}
-		}
-		if strings.Join(got, " | ") == strings.Join(want, " | ") && retOK {
-			r.ok(key, c.pos(calls[0].Pos()), fname(fn), "Execute("+strings.Join(got, ", ")+"), result returned unchanged")
-		} else {
-			r.viol(key, c.pos(calls[0].Pos()), fname(fn), fmt.Sprintf("evaluates Execute(%s) (result returned unchanged: %v); wanted Execute(%s)", strings.Join(got, ", "), retOK, strings.Join(want, ", ")))
-		}
-	}
-	check(c.A.Search, []string{"newInterpreter()", "(*Parser).Parse(NewParser(),param#0)#0", "param#1"}, "one-shot")
-	check(c.A.JPSearch, []string{"param#0.intr", "param#0.ast", "param#1"}, "compiled")
+	c.skeletonAbs(r)
 	// constructors return fresh objects
 	for _, k := range []*ssa.Function{c.A.NewParser, c.A.NewLexer, c.A.NewInterp, c.A.NewFCaller} {
 		r.Instances++
@@ -403,41 +246,6 @@ func ruleSkeleton(c *Ctx) *RuleResult {
 			r.ok("fresh|"+k.Name(), c.pos(k.Pos()), fname(k), "returns a new allocation on every call")
 		} else {
 			r.viol("fresh|"+k.Name(), c.pos(k.Pos()), fname(k), "may return something other than a fresh allocation (shared or cached state)")
-		}
-	}
-	// Search's parse error is returned before evaluating
-	r.Instances++
-	{
-		fn := c.A.Search
-		ec := callsTo(fn, c.A.Exec)
-		// the call that produced the node argument (Parse itself or a thin wrapper around it)
-		var pc []*ssa.Call
-		if len(ec) == 1 {
-			for _, a := range ec[0].Call.Args {
-				if ex, isEx := a.(*ssa.Extract); isEx && c.isASTNode(a.Type()) {
-					if call, isCall := ex.Tuple.(*ssa.Call); isCall {
-						pc = append(pc, call)
-					}
-				}
-			}
-		}
-		ok := false
-		if len(pc) == 1 && len(ec) == 1 {
-			for _, rf := range *pc[0].Referrers() {
-				if ex, isEx := rf.(*ssa.Extract); isEx && ex.Index == 1 {
-					for _, t := range nilTests(errFlow(ex)) {
-						nilSucc := t.blk.Succs[1-t.nonNil]
-						if nilSucc.Dominates(ec[0].Block()) && len(nilSucc.Preds) == 1 {
-							ok = true
-						}
-					}
-				}
-			}
-		}
-		if ok {
-			r.ok("parse-first", c.pos(fn.Pos()), fname(fn), "the evaluator runs only on the err == nil edge of Parse")
-		} else {
-			r.viol("parse-first", c.pos(fn.Pos()), fname(fn), "the evaluator is not guarded by the success of Parse")
 		}
 	}
 	return r
